@@ -648,6 +648,9 @@ def cond_dnf(ct, cond, truth):
     return [[l]] if l is not None else [[]]
 
 
+KNOWN_ENUMS = {"cobs::PushResult": 3, "cobs::enc::PushResult": 3}
+
+
 def _tag_domain(ct, var, x):
     """Result and Option have exactly the variant indices 0 and 1"""
     try:
@@ -658,6 +661,15 @@ def _tag_domain(ct, var, x):
         ty = x[4]
     if isinstance(ty, str) and re.match(r"^(core|std)::(result::Result|option::Option)<", ty):
         ct.vars[var] = {"dom": [0, 1]}
+    elif isinstance(ty, str):
+        n = KNOWN_ENUMS.get(ty.split("<")[0])
+        if n is None:
+            for cr in getattr(ct.F, "crates", {}).values() if isinstance(getattr(ct.F, "crates", None), dict) else []:
+                adt = cr.adts.get(cr.name + "::" + ty.split("<")[0]) if hasattr(cr, "adts") else None
+                if adt and adt.get("kind") == "Enum":
+                    n = len(adt["variants"])
+        if n:
+            ct.vars[var] = {"dom": list(range(n))}
 
 
 def _lin_literal(ct, a, b, op):
